@@ -1,7 +1,7 @@
 // Phonetic Method
 use ahash::RandomState;
 use std::collections::HashMap;
-use std::fs::{write, File};
+use std::fs::write;
 use std::time::SystemTime;
 
 use crate::config::Config;
@@ -10,7 +10,7 @@ use crate::data::Data;
 use crate::keycodes::keycode_to_char;
 use crate::phonetic::suggestion::PhoneticSuggestion;
 use crate::suggestion::Suggestion;
-use crate::utility::{read, SplittedString};
+use crate::utility::SplittedString;
 
 pub(crate) struct PhoneticMethod {
     buffer: String,
@@ -27,26 +27,14 @@ impl PhoneticMethod {
     /// Creates a new `PhoneticMethod` struct.
     pub(crate) fn new(config: &Config) -> Self {
         // Load candidate selections file.
-        let selections = if let Ok(file) = std::fs::read(config.get_user_phonetic_selection_data())
-        {
-            serde_json::from_slice(&file).unwrap()
-        } else {
-            HashMap::with_hasher(RandomState::new())
-        };
+        // A file which can't be read or parsed is treated as if there were no file.
+        let selections = std::fs::read(config.get_user_phonetic_selection_data())
+            .ok()
+            .and_then(|file| serde_json::from_slice(&file).ok())
+            .unwrap_or_else(|| HashMap::with_hasher(RandomState::new()));
 
         // Load user's auto correct file.
-        let (modified, autocorrect) = {
-            if let Ok(mut file) = File::open(config.get_user_phonetic_autocorrect()) {
-                let modified = file.metadata().unwrap().modified().unwrap();
-                let autocorrect = serde_json::from_slice(&read(&mut file)).unwrap();
-                (modified, autocorrect)
-            } else {
-                (
-                    SystemTime::UNIX_EPOCH,
-                    HashMap::with_hasher(RandomState::new()),
-                )
-            }
-        };
+        let (modified, autocorrect) = load_user_autocorrect(config);
 
         PhoneticMethod {
             buffer: String::with_capacity(20),
@@ -77,6 +65,25 @@ impl PhoneticMethod {
 
             Suggestion::new_lonely(suggestion, config.get_ansi_encoding())
         }
+    }
+}
+
+/// Loads the user's auto correct file, gives its last modification time and its entries.
+///
+/// A file which is absent, can't be read or parsed gives no entries.
+fn load_user_autocorrect(config: &Config) -> (SystemTime, HashMap<String, String, RandomState>) {
+    let path = config.get_user_phonetic_autocorrect();
+    let modified = std::fs::metadata(&path).and_then(|meta| meta.modified());
+    let entries = std::fs::read(&path)
+        .ok()
+        .and_then(|file| serde_json::from_slice(&file).ok());
+
+    match (modified, entries) {
+        (Ok(modified), Some(entries)) => (modified, entries),
+        _ => (
+            SystemTime::UNIX_EPOCH,
+            HashMap::with_hasher(RandomState::new()),
+        ),
     }
 }
 
@@ -133,11 +140,11 @@ impl Method for PhoneticMethod {
                     .to_string(),
                 suggestion,
             );
-            write(
+            // The selection stays in the memory if it can't be saved (e.g. the directory is missing).
+            let _ = write(
                 config.get_user_phonetic_selection_data(),
                 serde_json::to_string(&self.selections).unwrap(),
-            )
-            .unwrap();
+            );
         }
 
         // Reset to defaults
@@ -145,14 +152,11 @@ impl Method for PhoneticMethod {
     }
 
     fn update_engine(&mut self, config: &Config) {
-        if let Ok(mut file) = File::open(config.get_user_phonetic_autocorrect()) {
-            let modified = file.metadata().unwrap().modified().unwrap();
-            // Update the auto correct entries if only the file was modified in the meantime.
-            if modified > self.modified {
-                self.suggestion.user_autocorrect =
-                    serde_json::from_slice(&read(&mut file)).unwrap();
-                self.modified = modified;
-            }
+        let (modified, autocorrect) = load_user_autocorrect(config);
+        // Update the auto correct entries if only the file was modified in the meantime.
+        if modified > self.modified {
+            self.suggestion.user_autocorrect = autocorrect;
+            self.modified = modified;
         }
     }
 
